@@ -51,12 +51,6 @@ REVIEWED: dict[str, tuple[str, str]] = {
         "extension point: filter_async is used only when the filter object defines it; no "
         "built-in or extra filter does (SIB-EXT)",
     ),
-    "liquid.builtin.expressions.loop.LoopExpression.evaluate_async": (
-        "9d4b69b92a4016ad",
-        "branch order of two disjoint tests (offset is None / isinstance StringLiteral) and "
-        "StringLiteral.evaluate(context) vs .value: equal as str (Markup subclasses str, compares "
-        "and converts with to_int identically)",
-    ),
     "liquid.builtin.tags.if_tag.IfNode.render_to_output_async": (
         "5d07df00bffdfa41",
         "elsif: async renders the ConditionalBlockNode (re-checks disabled tags on an 'elsif' "
@@ -102,9 +96,85 @@ def pairs(repo: Repo):
             yield f, owner.get(base)
 
 
+def _string_literal_axiom_holds(repo: Repo) -> bool:
+    """side condition of the reviewed axiom below: StringLiteral.evaluate returns ``self.value`` or
+    ``Markup(self.value)`` and nothing else"""
+    try:
+        ev = repo.own_method("liquid.builtin.expressions.primitive.StringLiteral", "evaluate")
+    except Exception:  # noqa: BLE001
+        return False
+    rets = [r.value for r in ast.walk(ev.node) if isinstance(r, ast.Return) and r.value is not None]
+    ok = {"self.value", "Markup(self.value)"}
+    return bool(rets) and all(ast.unparse(r) in ok for r in rets)
+
+
+class _ReviewedAxioms(ast.NodeTransformer):
+    """Two reviewed equivalences, applied to both twins before they are compared (they replace a
+    digest-pinned row: an edit elsewhere in the pair no longer re-opens them, and nothing else is
+    forgiven):
+
+      A1  inside a branch entered under ``isinstance(X, StringLiteral)``, ``X.evaluate(context)`` is
+          ``X.value`` — equal as ``str`` (``Markup`` subclasses ``str``; compares, hashes and converts
+          with ``to_int`` identically; the one observable difference is the class name in an error
+          message under autoescape).  Side condition machine-checked: StringLiteral.evaluate
+          returns ``self.value`` / ``Markup(self.value)`` only.
+      A2  the two arms ``if X is None: A elif isinstance(X, T): B`` of one chain are disjoint and their
+          tests effect-free: written in the order ``is None`` first."""
+
+    def __init__(self, a1: bool):
+        self.a1 = a1
+        self.lits: list[str] = []
+
+    def visit_If(self, n: ast.If):
+        t = n.test
+        lit = None
+        if self.a1 and isinstance(t, ast.Call) and isinstance(t.func, ast.Name) and t.func.id == "isinstance" and len(t.args) == 2 and ast.unparse(t.args[1]) == "StringLiteral":
+            lit = ast.unparse(t.args[0])
+        n.test = self.visit(n.test)
+        if lit:
+            self.lits.append(lit)
+        n.body = [self.visit(x) for x in n.body]
+        if lit:
+            self.lits.pop()
+        n.orelse = [self.visit(x) for x in n.orelse]
+        # A2
+        if len(n.orelse) == 1 and isinstance(n.orelse[0], ast.If):
+            m = n.orelse[0]
+
+            def none_test(e):
+                return ast.unparse(e.left) if isinstance(e, ast.Compare) and len(e.ops) == 1 and isinstance(e.ops[0], ast.Is) and isinstance(e.comparators[0], ast.Constant) and e.comparators[0].value is None else None
+
+            def inst_test(e):
+                return ast.unparse(e.args[0]) if isinstance(e, ast.Call) and isinstance(e.func, ast.Name) and e.func.id == "isinstance" and len(e.args) == 2 else None
+
+            if inst_test(n.test) is not None and inst_test(n.test) == none_test(m.test):
+                n.test, m.test = m.test, n.test
+                n.body, m.body = m.body, n.body
+        return n
+
+    def visit_Call(self, n: ast.Call):
+        self.generic_visit(n)
+        if self.lits and isinstance(n.func, ast.Attribute) and n.func.attr in ("evaluate", "evaluate_async") and ast.unparse(n.func.value) in self.lits:
+            return ast.copy_location(ast.Attribute(value=n.func.value, attr="value", ctx=ast.Load()), n)
+        return n
+
+    def visit_Await(self, n: ast.Await):
+        self.generic_visit(n)
+        if isinstance(n.value, ast.Attribute) and n.value.attr == "value" and ast.unparse(n.value.value) in self.lits:
+            return n.value
+        return n
+
+
 def compare(repo: Repo, sigs, s_node, a_node):
+    import copy as _copy
+
     gen_s, gen_a = sib.is_generator(s_node), sib.is_generator(a_node)
     gen_pair = gen_s != gen_a
+    a1 = _string_literal_axiom_holds(repo)
+    s_node = _ReviewedAxioms(a1).visit(_copy.deepcopy(s_node))
+    a_node = _ReviewedAxioms(a1).visit(_copy.deepcopy(a_node))
+    ast.fix_missing_locations(s_node)
+    ast.fix_missing_locations(a_node)
     ns = sib.dump(sib.normal_form(s_node, gen_pair, sigs))
     na = sib.dump(sib.normal_form(a_node, gen_pair, sigs))
     return ns, na
